@@ -3,6 +3,7 @@
 Decision tables of the four unchecked decoders over the three flag bits (known-bits
 abstract interpretation), validation order of the four checked decoders, the subgroup
 predicate (conjunction + multiplier r), root selection by the sort flag, panic edges."""
+import roles
 import itertools
 
 import decode
@@ -253,8 +254,9 @@ def rule_predicates(fx, rep):
         preds = {}
 
         def tr(I, fr, t, c, pth):
-            nm = c.get('name')
-            if nm in ('is_on_curve', 'is_in_correct_subgroup_assuming_on_curve') and (c.get('res') or '').startswith(aff):
+            RG = roles.roles(fx)[g]
+            nm = {RG.get('is_on_curve'): 'is_on_curve', RG.get('r_torsion'): 'is_in_correct_subgroup_assuming_on_curve'}.get(c.get('res'))
+            if nm is not None and c.get('res'):
                 ref = fr.res.operand_referent(t['args'][0])
                 on_self = ref is not None and ref[0] == 'place' and ref[1]['l'] == 1
                 fr.storev(t['dest'], ('bool', (nm, on_self, t['span'])))
@@ -295,10 +297,10 @@ def rule_predicates(fx, rep):
         rep.check(ok and set(names) <= seen, 'GUARD', '%s:in_subgroup:conjunction' % g, 'in_subgroup = is_on_curve && [r]P == O, both on self',
                   why or 'predicate does not test %s' % sorted(set(names) - seen), where, construct=path)
         # the r-torsion test multiplies by exactly r
-        p2 = aff + '::is_in_correct_subgroup_assuming_on_curve'
+        p2 = roles.roles(fx)[g].get('r_torsion')
         b2 = fx.body(p2)
         if b2 is None:
-            rep.fail('EXP', '%s:r-torsion:anchor' % g, '%s not found' % p2)
+            rep.fail('EXP', '%s:r-torsion:anchor' % g, 'in_subgroup calls no helper that multiplies the point (r-torsion test)')
             continue
         rep.fn(p2)
         I2 = exp.Interp(fx, 'add', inline=lambda q: q.endswith('PrimeField>::char'))
@@ -312,11 +314,15 @@ def rule_predicates(fx, rep):
         except (exp.NotDerivable, exp.Budget) as e:
             rep.fail('EXP', '%s:r-torsion:multiplier' % g, 'not derivable: %s' % e, fx.fn(p2)['span'])
         # is_on_curve: identity -> true; else y^2 == x^3 + b (monomial shape + b from get_coeff_b)
-        p3 = aff + '::is_on_curve'
+        p3 = roles.roles(fx)[g].get('is_on_curve')
+        if p3 is None or fx.body(p3) is None:
+            rep.fail('GUARD', '%s:is_on_curve:anchor' % g, 'in_subgroup calls no curve-equation helper')
+            continue
         rep.fn(p3)
+        coeff_b = roles.roles(fx)[g].get('get_coeff_b')
 
         def tr3(I, fr, t, c, pth):
-            if c.get('name') == 'get_coeff_b':
+            if coeff_b and c.get('res') == coeff_b:
                 fr.storev(t['dest'], Lin.atom('b'))
                 return True
             if c.get('name') == 'is_zero' and c.get('trait') == 'CurveAffine':
@@ -357,10 +363,11 @@ def rule_predicates(fx, rep):
 
 
 def rule_root_selection(fx, rep, g, aff):
-    p = aff + '::get_point_from_x'
+    p = roles.roles(fx)[g].get('get_point_from_x')
     b = fx.body(p)
+    coeff_b = roles.roles(fx)[g].get('get_coeff_b')
     if b is None:
-        rep.fail('GUARD', '%s:get_point_from_x:anchor' % g, 'not found')
+        rep.fail('GUARD', '%s:get_point_from_x:anchor' % g, 'the compressed decoder calls no (x, greatest) -> point helper')
         return
     rep.fn(p)
     clos = [q for q in fx.fns if q.startswith(p + '::{closure')]
@@ -444,7 +451,7 @@ def rule_root_selection(fx, rep, g, aff):
     rep.check(ok, 'GUARD', '%s:root-selection' % g, 'greatest selects the lexicographically larger of y, -y; otherwise the smaller; x unchanged; finite', why, where, construct=cp)
     # x^3 + b and sqrt in the parent
     def tr2(I, fr, t, c, pth):
-        if c.get('name') == 'get_coeff_b':
+        if coeff_b and c.get('res') == coeff_b:
             fr.storev(t['dest'], Lin.atom('b'))
             return True
         if c.get('name') == 'sqrt' and c.get('trait') == 'ff::SqrtField':
